@@ -1,9 +1,11 @@
 /-
   VrlModel.Lang.Ops — value-level binary operators used by `Op::resolve`
-  (src/compiler/value/arithmetic.rs). Float operands are delegated to the soft-float model where
-  available; until then they are reported as out-of-model (`Res.oom`), never guessed.
+  (src/compiler/value/arithmetic.rs): delegated to `VrlModel.Arith` (the C10/C11 model, including the
+  soft-float `F64`). The error class is dropped here: the language model only distinguishes
+  "a runtime error" (messages are opaque tokens).
 -/
 import VrlModel.Lang.Ast
+import VrlModel.Arith
 
 namespace Lang
 
@@ -18,147 +20,27 @@ inductive Res where
   | oom
   deriving DecidableEq
 
-def wrapI64 (i : Int) : Int :=
-  let m := i % 18446744073709551616
-  if m ≥ 9223372036854775808 then m - 18446744073709551616 else m
+def ofArith : Arith.Res Value → Res
+  | .ok v => .ok v
+  | .err _ => .err
+  | .panic => .panic
 
-def natBits : Nat → Nat
-  | 0 => 0
-  | n + 1 => Nat.log2 (n + 1) + 1
-
-/-- the integer value of `i as f64` (round to nearest, ties to even); exact below 2^53. -/
-def i64RoundF64 (i : Int) : Int :=
-  let a := i.natAbs
-  let bits := natBits a
-  if bits ≤ 53 then i
-  else
-    let e := bits - 53
-    let q := a / 2 ^ e
-    let r := a % 2 ^ e
-    let half := 2 ^ (e - 1)
-    let q' := if r > half || (r == half && q % 2 == 1) then q + 1 else q
-    let v : Int := (q' * 2 ^ e : Nat)
-    if i < 0 then -v else v
-
-def bytesLt : List Nat → List Nat → Bool := Key.lt
-
-def hasFloat : Value → Bool
-  | .float _ => true
-  | _ => false
-
-def isZeroBits (b : Nat) : Bool := b == 0 || b == 0x8000000000000000
-
-mutual
-  /-- `PartialEq for Value`: structural; floats by IEEE equality of non-NaN values (`-0.0 == 0.0`). -/
-  def valueEq : Value → Value → Bool
-    | .null, .null => true
-    | .bool a, .bool b => a == b
-    | .int a, .int b => a == b
-    | .float a, .float b => a == b || (isZeroBits a && isZeroBits b)
-    | .bytes a, .bytes b => a == b
-    | .ts a, .ts b => a == b
-    | .regex a, .regex b => a == b
-    | .arr a, .arr b => vlistEq a b
-    | .obj a, .obj b => vmapEq a b
-    | _, _ => false
-  def vlistEq : VList → VList → Bool
-    | .nil, .nil => true
-    | .cons a as, .cons b bs => valueEq a b && vlistEq as bs
-    | _, _ => false
-  def vmapEq : VMap → VMap → Bool
-    | .nil, .nil => true
-    | .cons k a as, .cons l b bs => k == l && valueEq a b && vmapEq as bs
-    | _, _ => false
-end
-
-/-- `eq_lossy`; `none` = needs the float model. -/
-def eqLossy (a b : Value) : Option Bool :=
-  match a, b with
-  | .int x, .int y => some (i64RoundF64 x == i64RoundF64 y)
-  | .int _, .float _ => none
-  | .int _, _ => some false
-  | .float _, .int _ => none
-  | .float _, .float _ => none
-  | .float _, _ => some false
-  | _, _ => some (valueEq a b)
-
-def repeatBytes (b : List Nat) : Nat → List Nat
-  | 0 => []
-  | n + 1 => b ++ repeatBytes b n
-
-def mergeMaps (a : VMap) : VMap → VMap
-  | .nil => a
-  | .cons k v m => mergeMaps (a.insert k v) m
-
-def tryAnd (v w : Value) : Res :=
-  match v, w with
-  | .null, _ => .ok (.bool false)
-  | .bool _, .null => .ok (.bool false)
-  | .bool a, .bool b => .ok (.bool (a && b))
-  | _, _ => .err
-
-def cmpInt (o : Opcode) (a b : Int) : Bool :=
-  match o with
-  | .gt => decide (a > b)
-  | .ge => decide (a ≥ b)
-  | .lt => decide (a < b)
-  | _ => decide (a ≤ b)
-
-def cmpBytes (o : Opcode) (a b : List Nat) : Bool :=
-  match o with
-  | .gt => bytesLt b a
-  | .ge => !bytesLt a b
-  | .lt => bytesLt a b
-  | _ => !bytesLt b a
-
-/-- `try_gt/ge/lt/le` -/
-def cmpOp (o : Opcode) (v w : Value) : Res :=
-  match v, w with
-  | .int a, .int b => .ok (.bool (cmpInt o a b))
-  | .int _, .float _ | .float _, .int _ | .float _, .float _ => .oom
-  | .bytes a, .bytes b => .ok (.bool (cmpBytes o a b))
-  | .ts a, .ts b => .ok (.bool (cmpInt o a b))
-  | _, _ => .err
-
-def asUsize (n : Int) : Nat := if n < 0 then 0 else n.toNat
+def tryAnd (v w : Value) : Res := ofArith (Arith.tryAnd v w)
 
 /-- the operators of `Op::resolve` that evaluate both operands first. -/
 def binop (o : Opcode) (v w : Value) : Res :=
   match o with
-  | .mul =>
-    (match v, w with
-     | .int a, .bytes b => .ok (.bytes (repeatBytes b (asUsize a)))
-     | .bytes b, .int a => .ok (.bytes (repeatBytes b (asUsize a)))
-     | .int a, .int b => .ok (.int (wrapI64 (a * b)))
-     | .int _, .float _ | .float _, .int _ | .float _, .float _ => .oom
-     | _, _ => .err)
-  | .div =>
-    (match v, w with
-     | _, .int 0 => .err
-     | _, .float b => if isZeroBits b then .err else
-         (match v with | .int _ | .float _ => .oom | _ => .err)
-     | .int _, .int _ | .float _, .int _ => .oom
-     | _, _ => .err)
-  | .add =>
-    (match v, w with
-     | .int a, .int b => .ok (.int (wrapI64 (a + b)))
-     | .int _, .float _ | .float _, .int _ | .float _, .float _ => .oom
-     | .bytes a, .null => .ok (.bytes a)
-     | .bytes a, .bytes b => .ok (.bytes (a ++ b))
-     | .null, .bytes b => .ok (.bytes b)
-     | _, _ => .err)
-  | .sub =>
-    (match v, w with
-     | .int a, .int b => .ok (.int (wrapI64 (a - b)))
-     | .int _, .float _ | .float _, .int _ | .float _, .float _ => .oom
-     | _, _ => .err)
-  | .eq => (match eqLossy v w with | some b => .ok (.bool b) | none => .oom)
-  | .ne => (match eqLossy v w with | some b => .ok (.bool (!b)) | none => .oom)
-  | .gt | .ge | .lt | .le => cmpOp o v w
-  | .merge =>
-    (match v, w with
-     | .obj a, .obj b => .ok (.obj (mergeMaps a b))
-     | _, _ => .err)
+  | .mul => ofArith (Arith.tryMul v w)
+  | .div => ofArith (Arith.tryDiv v w)
+  | .add => ofArith (Arith.tryAdd v w)
+  | .sub => ofArith (Arith.trySub v w)
+  | .eq => .ok (.bool (Arith.eqImpl v w))
+  | .ne => .ok (.bool (!Arith.eqImpl v w))
+  | .gt => ofArith (Arith.tryCmp .gt v w)
+  | .ge => ofArith (Arith.tryCmp .ge v w)
+  | .lt => ofArith (Arith.tryCmp .lt v w)
+  | .le => ofArith (Arith.tryCmp .le v w)
+  | .merge => ofArith (Arith.tryMerge v w)
   | .or | .and | .err => .panic    -- `unreachable!()`
 
 end Lang
